@@ -139,7 +139,54 @@ func RuleUX1(c *Ctx) {
 					return ok && info.ObjectOf(id) == types.Object(vobj) && !isDefineOf(nd, id)
 				})
 			}
-			if cf.MustAt(ix, gen, nil, kill) {
+			// a counter that starts at a constant >= K and is only ever incremented
+			monotone := false
+			var def ast.Expr
+			ast.Inspect(body.body, func(y ast.Node) bool {
+				if st, ok := y.(*ast.AssignStmt); ok && st.Tok == token.DEFINE && len(st.Lhs) == len(st.Rhs) {
+					for i, l := range st.Lhs {
+						if id, ok := l.(*ast.Ident); ok && info.Defs[id] == types.Object(vobj) {
+							def = st.Rhs[i]
+						}
+					}
+				}
+				return true
+			})
+			if def != nil {
+				if c0, ok := constOf(def); ok && c0 >= k {
+					monotone = true
+					ast.Inspect(body.body, func(y ast.Node) bool {
+						switch st := y.(type) {
+						case *ast.AssignStmt:
+							for _, l := range st.Lhs {
+								if isV(l) && st.Tok != token.DEFINE {
+									inc := false
+									if st.Tok == token.ADD_ASSIGN && len(st.Rhs) == 1 {
+										if cv, ok := constOf(st.Rhs[0]); ok && cv >= 0 {
+											inc = true
+										}
+									}
+									if !inc {
+										monotone = false
+									}
+								}
+							}
+						case *ast.IncDecStmt:
+							if isV(st.X) && st.Tok != token.INC {
+								monotone = false
+							}
+						case *ast.UnaryExpr:
+							if st.Op == token.AND && isV(st.X) {
+								monotone = false
+							}
+						}
+						return true
+					})
+				}
+			}
+			if monotone {
+				sc.Holds(key, c.P.Pos(ix.Pos()), vid.Name+" starts at a constant >= K and is only incremented")
+			} else if cf.MustAt(ix, gen, nil, kill) {
 				sc.Holds(key, c.P.Pos(ix.Pos()), "dominated by a test of "+vid.Name)
 			} else {
 				sc.Violation(key, c.P.Pos(ix.Pos()), fmt.Sprintf("%s is evaluated on a path on which %s >= %d is not known (a guard written after it in the same condition or statement does not count): for %s == 0 the index wraps or is negative and the library reports a Go runtime fault, or panics while building a diagnostic", types.ExprString(ix), vid.Name, k, vid.Name))
@@ -367,9 +414,16 @@ func RuleNX1(c *Ctx) {
 		}
 		n++
 		key := fmt.Sprintf("Next:return#%d", n)
-		gen := func(fa cfgx.Fact) bool {
-			be, ok := ast.Unparen(fa.Expr).(*ast.BinaryExpr)
-			if !ok || !((be.Op == token.NEQ && fa.Truth) || (be.Op == token.EQL && !fa.Truth)) {
+		// the error that travels with the lexeme in the same return
+		var errObj types.Object
+		if len(ret.Results) == 2 {
+			if eid, ok := ast.Unparen(ret.Results[1]).(*ast.Ident); ok && !isNilIdentExpr(info, eid) {
+				errObj = info.ObjectOf(eid)
+			}
+		}
+		notNil := func(e ast.Expr, objs ...types.Object) bool {
+			be, ok := ast.Unparen(e).(*ast.BinaryExpr)
+			if !ok || be.Op != token.NEQ {
 				return false
 			}
 			a, b := be.X, be.Y
@@ -380,7 +434,35 @@ func RuleNX1(c *Ctx) {
 				return false
 			}
 			aid, ok := ast.Unparen(a).(*ast.Ident)
-			return ok && info.ObjectOf(aid) == obj
+			if !ok {
+				return false
+			}
+			for _, o := range objs {
+				if o != nil && info.ObjectOf(aid) == o {
+					return true
+				}
+			}
+			return false
+		}
+		var allNotNil func(e ast.Expr) bool
+		allNotNil = func(e ast.Expr) bool {
+			if be, ok := ast.Unparen(e).(*ast.BinaryExpr); ok && be.Op == token.LOR {
+				return allNotNil(be.X) && allNotNil(be.Y)
+			}
+			return notNil(e, obj, errObj)
+		}
+		gen := func(fa cfgx.Fact) bool {
+			if fa.Truth && allNotNil(fa.Expr) {
+				// `lex != nil`, or `je != nil || lex != nil` with je returned alongside
+				return true
+			}
+			be, ok := ast.Unparen(fa.Expr).(*ast.BinaryExpr)
+			if !ok || be.Op != token.EQL || fa.Truth {
+				return false
+			}
+			neq := *be
+			neq.Op = token.NEQ
+			return notNil(&neq, obj)
 		}
 		if cf.MustAt(ret, gen, nil, nil) {
 			sc.Holds(key, c.P.Pos(ret.Pos()), "returned only when not nil")
